@@ -274,6 +274,9 @@ pub fn cases(quick: bool) -> Vec<RosCase> {
         Kind::PolledUnknown,
         Kind::Polled(1),
         Kind::Polled(5),
+        // sentinel priorities at both ends of the value range
+        Kind::Polled(i32::MIN),
+        Kind::Polled(i32::MAX),
     ];
     let assumed: Vec<u64> = if quick { vec![2, 7] } else { vec![1, 3, 7, 12] };
     let arrs: Vec<ArrSpec> = arr_menu(quick)
@@ -415,6 +418,8 @@ pub fn large_cases(quick: bool) -> Vec<RosCase> {
                 vec![Kind::Timer, Kind::PolledUnknown, Kind::PolledUnknown, Kind::Timer],
                 vec![Kind::Polled(0), Kind::Polled(1), Kind::Polled(2), Kind::Polled(3)],
                 vec![Kind::Polled(3), Kind::Polled(1), Kind::Polled(2), Kind::Polled(0)],
+                vec![Kind::Polled(i32::MAX), Kind::Polled(0), Kind::Polled(i32::MIN), Kind::Polled(-7)],
+                vec![Kind::Polled(i32::MIN), Kind::Polled(i32::MAX), Kind::Polled(1 << 30), Kind::PolledUnknown],
                 vec![Kind::PolledUnknown, Kind::Timer, Kind::EventSource, Kind::Polled(1)],
             ];
             for bw in [false, true] {
@@ -560,7 +565,7 @@ pub fn run(ctx: &mut Ctx) -> (String, Value, Vec<String>) {
         "distinct_nontrivial": nt.load(Ordering::Relaxed),
         "rule": "every case of the box (analysis x supply x workload x kinds x assumed bounds x subchain) x limits {120, R-1, R, R+2} is one comparison of the real analysis with the naive evaluator (every offset / activation, linear-scan fixed points, SBF = min over all paths of the reservation automaton); non-trivial = naive result exceeds the analysed callback's WCET (divergences are compared too but not counted)",
         "cases": cs.len(),
-        "large_parameter_box": {"rule": "three (thorough: four) callbacks drawn with repetition, in every order, from (T,J,C) in {(20,0,2),(30,45,3),(50,0,5),(100,250,4),(15,0,1),(40,40,6)} x supplies {dedicated, Periodic(5,10), Constrained(6,9,25)} x all six analyses (rr/bw: four kind patterns, singleton and two-element subchains, assumed bounds T and 2T+J); limits {2500, R-1, R, R+2}",
+        "large_parameter_box": {"rule": "three (thorough: four) callbacks drawn with repetition, in every order, from (T,J,C) in {(20,0,2),(30,45,3),(50,0,5),(100,250,4),(15,0,1),(40,40,6)} x supplies {dedicated, Periodic(5,10), Constrained(6,9,25)} x all six analyses (rr/bw: six kind patterns incl. priorities at both ends of the i32 range, singleton and two-element subchains, assumed bounds T and 2T+J); limits {2500, R-1, R, R+2}",
                                 "cases": lc.len(), "comparisons": ln.load(Ordering::Relaxed), "cases_with_ok_result": lok.load(Ordering::Relaxed), "largest_ok_result": lmax.load(Ordering::Relaxed)},
         "comparisons_per_analysis": *per.lock().unwrap(),
         "samples": samples,
